@@ -10,9 +10,27 @@ PROPS = {}
 NOT_YET = {}
 HOOK_COMMITS = ['f017b0b790465086183ecbf250c53f6db2d5bf6b', '293f178a895aff0e9b75affc20f96bc07df8a315', '75f0ae304fc8ed4bd9d0c6dd47629e437890e6b9']
 ENGINES = [
-    {'name': 'E1', 'path': 'harness/ + rt/vh.h', 'kind_free_text':
-     'sequential differential harnesses (real code in lock-step with a reference model) under ASan+UBSan',
-     'serves_properties': []},
+    {'name': 'E1', 'path': 'harness/*.c + rt/vh.h + models/refsched.h + lib/ptgen.py',
+     'kind_free_text': 'sequential differential harnesses: the real code in lock-step with a small reference model over '
+                       'generated / enumerated histories, inputs, geometries and programs, under ASan+UBSan (gcc; clang '
+                       'and other optimisation levels in the thorough tier)',
+     'serves_properties': ['C01', 'C02', 'C03', 'C05', 'C08', 'C09', 'C10', 'C11', 'C12', 'C13', 'C14', 'C15', 'C16',
+                           'C17', 'C18', 'C19', 'C20']},
+    {'name': 'E2', 'path': 'rt/shim.c rt/shim.h + harness/sched_isr.c mq_conc.c rb.c console_isr.c',
+     'kind_free_text': 'schedule control through a private ThreadSanitizer runtime: librfn is compiled with '
+                       '-fsanitize=thread but linked against our own __tsan_* entry points, so every atomic and plain '
+                       'access is a schedule point; interrupt handlers are injected at every point (single sweep, nested '
+                       'pairs, random), and ucontext coroutines are scheduled at random or by priorities (PCT); guard '
+                       'zones; serialised, replayable from the seed',
+     'serves_properties': ['C01', 'C03', 'C04', 'C05', 'C06', 'C15']},
+    {'name': 'E3', 'path': 'harness/threads.c + lib/driver.py:tsan_post',
+     'kind_free_text': 'real pthreads on 16 cores under the genuine ThreadSanitizer (happens-before race detection; reports '
+                       'taken from its log) and under ASan+UBSan; also over the fallback atomics of atomic.h',
+     'serves_properties': ['C04', 'C05', 'C06', 'C07']},
+    {'name': 'E4', 'path': 'harness/threads.c (--extra signal)',
+     'kind_free_text': 'real asynchronous nested signals (POSIX interval timers) interrupting the thread that runs the '
+                       'scheduler, ASan+UBSan build',
+     'serves_properties': ['C06']},
 ]
 
 
